@@ -348,29 +348,29 @@ def prefix_covered(pnf, ns_keys, g, is_env):
 
 def rule_carrier(ck, X):
     evs = [e for e in X.events.get("model::structures::writer::write_type_alias", []) if e.kind == "emit"]
-    rows = {}
-    cur_attr = None
-    for e in evs:
-        sk = e.skeleton().strip()
-        cond = tuple((og.nf_str(c[1]), c[2]) for c in e.ctx if c[0] == "alt" and ("is_string" in og.nf_str(c[1]) or "is_other" in og.nf_str(c[1])))
-        if sk.startswith("#[yaserde(") and ("text" in sk or "flatten" in sk):
-            rows.setdefault(cond, {})["attr"] = sk
-        if sk.startswith("pub value:"):
-            rows.setdefault(cond, {})["member"] = e
-    want = {
-        (("is_string(rust_type)", True),): ("text = true", "rust_type"),
-        (("is_string(rust_type)", False), ("is_other(rust_type)", True)): ("flatten = true", "rust_type"),
-        (("is_string(rust_type)", False), ("is_other(rust_type)", False)): ("text = true", "String"),
-    }
-    for cond, (attr, ty) in want.items():
-        r = rows.get(cond)
-        label = "string" if cond[0][1] else ("user-type" if cond[1][1] else "other-builtin")
-        if not r or "attr" not in r or "member" not in r:
+    CE = getattr(X, "CE", None) or og.CallExpander(X.F)
+    attrs = [e for e in evs if e.skeleton().strip().startswith("#[yaserde(") and ("text" in e.skeleton() or "flatten" in e.skeleton())]
+    members = [e for e in evs if e.skeleton().strip().startswith("pub value:")]
+    want = {"String": ("text = true", "rust_type", "string"), "Other": ("flatten = true", "rust_type", "user-type"), "prim": ("text = true", "String", "other-builtin")}
+
+    def holds(e, kind):
+        for c in e.ctx:
+            if c[0] != "alt":
+                continue
+            t = T.type_kind_truth(c[1], kind, CE)
+            if t is not None and t != c[2]:
+                return False
+        return True
+    for kind, (attr, ty, label) in want.items():
+        a_sel = [e for e in attrs if holds(e, kind)]
+        m_sel = [e for e in members if holds(e, kind)]
+        a_txt = sorted({e.skeleton().strip() for e in a_sel})
+        m_ty = sorted({(og.nf_str(e.holes()[0][0]) if e.holes() else e.skeleton().split(":", 1)[1].strip().rstrip(",")) for e in m_sel})
+        if not a_sel or not m_sel:
             ck.violation("R5", f"carrier:{label}", "-", f"simple type with {label} base: carrier member not found")
             continue
-        mem = r["member"]
-        got_ty = og.nf_str(mem.holes()[0][0]) if mem.holes() else mem.skeleton().split(":")[1].strip()
-        if attr in r["attr"] and got_ty == ty:
-            ck.ok("R5", f"carrier:{label}", mem.site, f"{label} base: `{r['attr']}` on `value: {got_ty}`")
+        site = m_sel[0].site
+        if len(a_txt) == 1 and len(m_ty) == 1 and attr in a_txt[0] and m_ty[0] == ty:
+            ck.ok("R5", f"carrier:{label}", site, f"{label} base: `{a_txt[0]}` on `value: {m_ty[0]}`")
         else:
-            ck.violation("R5", f"carrier:{label}", mem.site, f"{label} base: `{r['attr']}` on `value: {got_ty}`; expected `#[yaserde({attr})]` on `value: {ty}`")
+            ck.violation("R5", f"carrier:{label}", site, f"{label} base: {a_txt} on `value: {m_ty}`; expected `#[yaserde({attr})]` on `value: {ty}`")
